@@ -269,6 +269,33 @@ def analyse(repo):
     if 'result = deepcopy(translator)' not in dc: problems.append('SQLTranslator.deepcopy does not deep-copy')
     f['translatorAliasingProblems'] = problems
     f['cachedTranslatorsCopiedBeforeMutation'] = not problems
+    # Query._process_lambda: the label of the filters-key entry must tell apart every pair (order_by, effective original_names) that
+    # apply_lambda can be called with for ONE func_id (the func_id fixes whether the lambda has arguments)
+    import re as _re
+    plf = find_func(core, 'Query._process_lambda')
+    tups = [n for n in ast.walk(plf) if isinstance(n, ast.Assign) and src(n.targets[0]) == 'tup']
+    if len(tups) != 1 or not (isinstance(tups[0].value, ast.Tuple) and len(tups[0].value.elts) == 1 and isinstance(tups[0].value.elts[0], ast.Tuple)):
+        raise Unknown('_process_lambda: tup is not a one-entry tuple')
+    entry = tups[0].value.elts[0]
+    if [src(e) for e in entry.elts[1:]] != ['func_id', 'vartypes']: raise Unknown('_process_lambda: filters-key entry is %s' % src(entry))
+    label = entry.elts[0]
+    names_used = set(n.id for n in ast.walk(label) if isinstance(n, ast.Name))
+    if not names_used <= {'order_by', 'original_names'}: raise Unknown('_process_lambda: label reads %s' % sorted(names_used))
+    if not _re.search(r'else:\n\s+original_names = True', src(plf)): raise Unknown('_process_lambda: an argument-less lambda no longer forces original_names')
+    applies = [n for n in ast.walk(plf) if isinstance(n, ast.Call) and src(n.func).endswith('.apply_lambda')]
+    for c in applies:
+        a = [src(x) for x in c.args]
+        if a[2:3] != ['order_by'] or 'original_names' not in a: raise Unknown('_process_lambda: apply_lambda is called as %s' % src(c)[:120])
+    code = compile(ast.Expression(label), '<label>', 'eval')
+    LAB = {'order_by': 0, 'where': 1, 'filter': 2}
+    rows = []
+    for has_args in (True, False):
+        for method, ob, on in (('filter', False, False), ('where', False, True), ('order_by', True, False)):
+            eff = on if has_args else True
+            lab = eval(code, {'order_by': ob, 'original_names': eff})
+            if lab not in LAB: raise Unknown('_process_lambda: label %r' % (lab,))
+            rows.append((has_args, ob, eff, LAB[lab], method))
+    f['lambdaLabels'] = [list(r) for r in rows]
     # create_extractors: is a hit re-validated against the classification of the called names in the new scope
     ce = find_func(asttr, 'create_extractors')
     ces = src(ce)
@@ -324,6 +351,9 @@ def render(f):
     lines.append('def pinsRecordedAtRoot : Bool := %s' % b(f['pinsRecordedAtRoot']))
     lines.append('/-- every consumer of a cached translator (`for x in <query>`, query-typed externals, order_by / filter / where derivations) works on `translator.deepcopy()` -/')
     lines.append('def cachedTranslatorsCopiedBeforeMutation : Bool := %s' % b(f['cachedTranslatorsCopiedBeforeMutation']))
+    lines.append('/-- `Query._process_lambda`: (lambda has arguments, order_by, effective original_names, label of the filters-key entry: 0 order_by / 1 where / 2 filter)')
+    lines.append('    for filter / where / order_by called with a lambda with and without arguments (label expression evaluated from the source) -/')
+    lines.append('def lambdaLabels : List (Bool × Bool × Bool × Nat) := [%s]' % ', '.join('(%s, %s, %s, %d)' % (b(r[0]), b(r[1]), b(r[2]), r[3]) for r in f['lambdaLabels']))
     lines.append('/-- `Entity.flush` contains `query_results.clear()` -/')
     lines.append('def entityFlushClearsResults : Bool := %s' % b(f['entityFlushClearsResults']))
     lines.append('/-- `Query._aggregate` / `Query._actual_fetch` call `prepare_connection_for_query_execution()` before the lookup -/')
